@@ -80,6 +80,24 @@ impl PayloadDelta {
     pub uninterp spec fn serial_spec(&self) -> Serial;
     pub uninterp spec fn is_diff(&self, a: Content, b: Content) -> bool;
     pub uninterp spec fn is_empty_spec(&self) -> bool;
+
+    // accessors (delta.rs); is_empty/serial read the abstract state, the counts are not constrained
+    #[verifier::external_body]
+    pub fn is_empty(&self) -> (r: bool) ensures r == self.is_empty_spec() { unimplemented!() }
+    #[verifier::external_body]
+    pub fn serial(&self) -> (r: Serial) ensures r == self.serial_spec() { unimplemented!() }
+    #[verifier::external_body] pub fn announce_len(&self) -> usize { unimplemented!() }
+    #[verifier::external_body] pub fn withdraw_len(&self) -> usize { unimplemented!() }
+    // C11/C12 (unit delta), as assumed in units/history/env.rs, over data-set contents
+    #[verifier::external_body]
+    pub fn empty(serial: Serial) -> (r: PayloadDelta)
+        ensures r.serial_spec() == serial, r.is_empty_spec(), forall|x: Content| r.is_diff(x, x),
+    { unimplemented!() }
+    #[verifier::external_body]
+    pub fn merge(&self, new: &PayloadDelta) -> (r: PayloadDelta)
+        ensures r.serial_spec() == new.serial_spec(),
+                forall|x: Content, y: Content, z: Content| self.is_diff(x, y) && new.is_diff(y, z) ==> r.is_diff(x, z),
+    { unimplemented!() }
 }
 
 // proved in unit history (contracts copied as in units/history_locks/env.rs)
@@ -247,3 +265,11 @@ pub mod clone_axiom {
     {}
 }
 broadcast use clone_axiom::axiom_arc_cloned;
+
+// std combinators without a vstd specification (assumed; same text as in units/cacert/env.rs)
+pub assume_specification<T, F: FnOnce(T) -> bool + core::marker::Destruct> [std::option::Option::<T>::is_some_and] (o: Option<T>, f: F) -> (r: bool)
+    requires o matches Some(x) ==> f.requires((x,)),
+    ensures match o { Some(x) => f.ensures((x,), r), None => !r };
+pub assume_specification<T, F: FnOnce(T) -> bool + core::marker::Destruct> [std::option::Option::<T>::is_none_or] (o: Option<T>, f: F) -> (r: bool)
+    requires o matches Some(x) ==> f.requires((x,)),
+    ensures match o { Some(x) => f.ensures((x,), r), None => r };
